@@ -71,6 +71,8 @@ func NewShellLexer(tokens []string, rest string) *ShellLexer {
 	return &ShellLexer{
 		remaining:      tokens,
 		atCommandStart: true,
+		sinceFor:       -1,
+		sinceCase:      -1,
 		error:          rest}
 }
 
